@@ -53,11 +53,19 @@ def configs(tier, seed):
            [["xw", 1], ["w", 1]], [["xa", 2], ["r", 1]], [["xw", 2], ["r", 1]], [["xa", 1], ["w", 2]]]
     three = [[["r", 1], ["r", 1], ["r", 1]], [["r", 2], ["r", 1], ["r", 2]], [["r", 1], ["r", 2], ["r", 2]],
              [["r", 2], ["r", 2], ["r", 1]], [["w", 1], ["r", 2], ["r", 1]], [["r", 2], ["a", 1], ["r", 1]],
-             [["a", 2], ["r", 1], ["w", 1]], [["r", 1], ["xw", 1], ["w", 1]], [["a", 1], ["xa", 1], ["r", 1]]]
+             [["a", 2], ["r", 1], ["w", 1]], [["r", 1], ["xw", 1], ["w", 1]], [["a", 1], ["xa", 1], ["r", 1]],
+             [["r", 2], ["a", 2], ["r", 2]],
+             # the SAME MemoryMap.Name object handed in twice / a Name taken from resources() handed back
+             [["rn", 1], ["same"]], [["rn", 2], ["r", 1], ["same"]], [["a", 1], ["back"]], [["a", 2, 1], ["r", 1], ["back"]]]
     for s in two + three:
-        out.append({"ops": s})
+        if sum(x for op in s for x in op[1:] if isinstance(x, int)) >= 5 and len(s) >= 3:
+            for k in range(len(ALPHA)):
+                out.append({"ops": s, "pin0": k})
+        else:
+            out.append({"ops": s})
     if tier == "thorough":
         out.append({"ops": [["r", 2], ["r", 2], ["r", 2]]})
+        out.append({"ops": [["a", 2], ["a", 2], ["r", 2]]})
         out.append({"ops": [["r", 2], ["a", 2, 1], ["r", 2]]})
         out.append({"ops": [["a", 1, 1], ["a", 1, 1], ["r", 2]]})
         out.append({"ops": [["w", 2], ["a", 2], ["w", 1]]})
@@ -92,17 +100,44 @@ def harness_for(cfg):
 
         def name(L):
             ctr[0] += 1
-            return tuple(E.part(f"n{ctr[0]}_{i}") for i in range(L))
+            parts = tuple(E.part(f"n{ctr[0]}_{i}") for i in range(L))
+            if ctr[0] == 1 and cfg.get("pin0") is not None:
+                # case split over the first part of the first name (spreads a heavy shape over processes)
+                if E.symbolic:
+                    E.assume(parts[0] == SymPart(__import__("z3").IntVal(cfg["pin0"])))
+                else:
+                    E.assume(parts[0] == ALPHA[cfg["pin0"]] and type(parts[0]) is type(ALPHA[cfg["pin0"]]))
+            return parts
         root = MemoryMap(addr_width=8, data_width=8)
         visible = []          # names visible in root
 
         def counts():
             return (len(list(root.resources())), len(list(root.windows())), len(list(root.all_resources())))
+        last_name_obj = [None]
         for op in ops:
             kind, lens = op[0], op[1:]
             before = counts()
-            if kind == "r":
+            if kind in ("same", "back"):
+                # re-adding under a name that is already visible must be refused, whatever object carries the name
+                if kind == "same":
+                    nm_obj = last_name_obj[0]
+                else:
+                    nm_obj = next((n_ for _, n_, _ in list(root.windows())[0][0].resources()), None) if list(root.windows()) else None
+                if nm_obj is None:
+                    raise PathAbort()
+                try:
+                    root.add_resource(Res(), name=nm_obj, size=1)
+                    E.observe("ok")
+                    E.prove(False, "a name that is already visible was accepted again (same Name object)")
+                except ValueError:
+                    E.observe("refused")
+                    E.prove(counts() == before, "refusal changed the map")
+                continue
+            if kind in ("r", "rn"):
                 nm = name(lens[0])
+                if kind == "rn":
+                    nm = MemoryMap.Name(nm)
+                    last_name_obj[0] = nm
                 conf = b_or(*[_conflict(nm, v) for v in visible])
                 try:
                     root.add_resource(Res(), name=nm, size=1)
